@@ -708,3 +708,35 @@ def sampling_contract_lemmas(S, I, variant):
                     bimp(has[cid](j), biff(SN(j) <= SN(w), zb(icmp("<", cnt[cid].at(j), n1[cid])))))
         else:
             S.undecided(f"[{cid}] threshold filter")
+
+
+@script(["C10"], "escalation/lemmas over the test and data contracts: measured risk never increases, confirmed stays confirmed (unbounded)")
+def escalation_risk_lemmas(S, I, variant):
+    """No code is run here.  From the contracts proved elsewhere: (C07/C10 lemmas) a later round's data for an assertion are the
+    earlier data with observations appended; (C05) the history on the extended data agrees with the earlier history on the
+    earlier positions; (C11) the reported p-value in random order is the smallest history entry (and at most 1); (C09)
+    proved' = (p <= limit) or proved.  Consequences, for every n <= n':"""
+    c = ctx()
+    n1 = S.integer("n_round1", lo=0)
+    n2 = S.integer("n_round2", lo=0)
+    c.assume(icmp("<=", n1, n2))
+    Hf = z3.Function("history", z3.IntSort(), z3.RealSort())      # the history on the round-2 data; its first n1 entries = round 1's
+
+    def h(j):
+        c.assume(z3.And(Hf(zi(j)) >= 0, Hf(zi(j)) <= 1), definitional=True)     # C11: entries in [0,1], not NaN
+        return XR(Hf(zi(j)), npk=True)
+
+    RMIN = SymArr(iterm(n2), h, "xr").fold("min1")
+    p1, p2 = RMIN.at(iterm(n1)), RMIN.at(iterm(n2))
+    mono = S.induction("smallest entry among the first n1+d <= smallest among the first n1",
+                       lambda d: bimp(icmp("<=", iadd(n1, d), n2), xcmp("<=", RMIN.at(iadd(n1, d)), RMIN.at(iterm(n1)))), lo=0)
+    if mono(isub(n2, n1)):
+        S.holds("the measured risk of an assertion does not increase from one round to the next", xcmp("<=", p2, p1))
+        rl = S.real("risk_limit", lo_strict=0, hi=Fraction(1, 2))
+        proved0 = S.boolean("proved_before_round1")
+        proved1 = bor(xcmp("<=", p1, rl), bterm(proved0))
+        proved2 = bor(xcmp("<=", p2, rl), proved1)
+        S.holds("an assertion confirmed in a round is confirmed in the next (by its p-value alone, and by the sticky flag)",
+                band(bimp(proved1, proved2), bimp(xcmp("<=", p1, rl), xcmp("<=", p2, rl))))
+    else:
+        S.undecided("measured risk does not increase")
